@@ -116,7 +116,7 @@ fn run_sched(exe: &Path, table: &Path, seed: u64, iters: usize, sched: &str, dir
 }
 
 /// S2: real threads under Miri's seeded scheduler. Returns (seeds run, failure).
-fn run_miri(cfg: &Cfg, seeds: std::ops::Range<u64>, threads: usize, reps: usize) -> Result<(u64, Option<(u64, String)>), Harness> {
+fn run_miri(cfg: &Cfg, seeds: std::ops::Range<u64>, threads: usize, reps: usize, programs: usize) -> Result<(u64, Option<(u64, String)>), Harness> {
     let flags = format!(
         "-Zmiri-many-seeds={}..{} -Zmiri-preemption-rate=0.05 -Zmiri-disable-isolation",
         seeds.start, seeds.end
@@ -125,7 +125,7 @@ fn run_miri(cfg: &Cfg, seeds: std::ops::Range<u64>, threads: usize, reps: usize)
         .current_dir(sim_dir(cfg))
         .args(["+nightly", "miri", "run", "--offline", "-q", "-p", "simmiri", "--target-dir"])
         .arg(sim_dir(cfg).join("target-miri"))
-        .args(["--", &threads.to_string(), &reps.to_string()])
+        .args(["--", &threads.to_string(), &reps.to_string(), &programs.to_string()])
         .env("MIRIFLAGS", flags)
         .env("CARGO_NET_OFFLINE", "true")
         .output()?;
@@ -232,10 +232,13 @@ pub fn check(cfg: &Cfg) -> Result<i32, Harness> {
     }
     let _ = std::fs::remove_dir_all(&scratch);
     // S2: preemption inside interpreter calls (Miri's seeded scheduler, real threads)
-    let n_seeds = cfg.n(12, 160) as u64;
+    // quick: the 10 core-language programs; thorough: also 10 programs calling natives of
+    // jaq-std / jaq-json directly (regex, codecs, sorting - about six times dearer per seed)
+    let n_seeds = cfg.n(12, 64) as u64;
+    let n_programs = cfg.tier.pick(10usize, 20usize);
     let base = cfg.seed.wrapping_mul(1000) % 1_000_000;
     // (not attempted when the static facts already fail: the thread harness cannot be built then)
-    let (miri_runs, miri_fail) = if violations.iter().any(|v| v.class == "S0") { (0, None) } else { run_miri(cfg, base..base + n_seeds, 3, 2)? };
+    let (miri_runs, miri_fail) = if violations.iter().any(|v| v.class == "S0") { (0, None) } else { run_miri(cfg, base..base + n_seeds, 3, 2, n_programs)? };
     tally.add_n("miri_seeds", miri_runs);
     if let Some((seed, msg)) = miri_fail {
         let mut fp = BTreeMap::new();
@@ -245,7 +248,7 @@ pub fn check(cfg: &Cfg) -> Result<i32, Harness> {
             class: "S2".into(),
             detail: format!("with real threads under Miri's scheduler (seed {seed}) a run differed from the sequential run, or Miri reported undefined behaviour: {}", msg.chars().take(700).collect::<String>()),
             fingerprint: fp,
-            case: json!({"kind": "miri", "miri_seed": seed, "threads": 3, "reps": 2}),
+            case: json!({"kind": "miri", "miri_seed": seed, "threads": 3, "reps": 2, "programs": n_programs}),
             seed: cfg.seed,
             run: 1000 + seed,
             minimised_steps: 0,
@@ -270,7 +273,7 @@ pub fn check(cfg: &Cfg) -> Result<i32, Harness> {
             "distinct_interleavings_total": interleavings.len(),
             "nontrivial_interleavings": tally.get("nontrivial_interleavings"),
             "oracle_processes": tally.get("oracle_processes"),
-            "miri": {"seeds_run": miri_runs, "seed_range": [base, base + n_seeds], "threads": 3, "repetitions": 2, "preemption_rate": 0.05,
+            "miri": {"seeds_run": miri_runs, "seed_range": [base, base + n_seeds], "threads": 3, "repetitions": 2, "programs": n_programs, "preemption_rate": 0.05,
                      "what": "S2: 3 real threads share the compiled filters of 10 core-language programs (lazily created nested labels, folds, closures, recursion, updates) and run them twice each under Miri, whose scheduler preempts at basic-block granularity from a seed (one seed = one exactly repeatable execution) and which also reports data races and undefined behaviour; every stream must equal the sequential one"},
             "faults_injected": "none: the property has no fault in it; the simulated dimension is the schedule",
             "real_vs_stub": {"real": ["jaq compiler and interpreter, all natives, value type in both reference-counting flavours"], "simulated": ["thread scheduling (shuttle RandomScheduler / PctScheduler from VERIF_SEED; Miri's seeded scheduler in S2)"], "note": "jaq contains no synchronisation, so shuttle's only scheduling points are the ones the harness inserts between pulls, around recompilation and at thread exit; interleavings inside one interpreter call are explored by the (much smaller) Miri stratum, on core-language programs without the standard prelude"},
@@ -289,7 +292,13 @@ pub fn replay(cfg: &Cfg, v: &Violation) -> Result<Option<(String, String)>, Harn
     let sync = v.case["flavour"].as_str() == Some("sync");
     if kind == "miri" {
         let seed = v.case["miri_seed"].as_u64().unwrap_or(0);
-        let (_, fail) = run_miri(cfg, seed..seed + 1, v.case["threads"].as_u64().unwrap_or(3) as usize, v.case["reps"].as_u64().unwrap_or(2) as usize)?;
+        let (_, fail) = run_miri(
+            cfg,
+            seed..seed + 1,
+            v.case["threads"].as_u64().unwrap_or(3) as usize,
+            v.case["reps"].as_u64().unwrap_or(2) as usize,
+            v.case["programs"].as_u64().unwrap_or(10) as usize,
+        )?;
         return Ok(fail.map(|(_, m)| ("S2".to_string(), m)));
     }
     if kind == "static" {
